@@ -1247,6 +1247,50 @@ func (e *FactEngine) newUniverse(req *Formula, body *ast.BlockStmt, target ...as
 	// witness of the tracked condition; later tests of v then decide it
 	if body != nil {
 		sc := e.fnScope()
+		// copies x = y of pure paths: the atoms over x have twins over y
+		for round := 0; round < 2; round++ {
+			ast.Inspect(body, func(n ast.Node) bool {
+				as, ok := n.(*ast.AssignStmt)
+				if !ok || len(as.Lhs) != len(as.Rhs) {
+					return true
+				}
+				for i, l := range as.Lhs {
+					if !isPurePath(as.Rhs[i]) || !isPurePath(l) {
+						continue
+					}
+					var paths []string
+					lc := strings.TrimPrefix(e.canon(l, sc, nil), "&")
+					rcFull := e.canon(as.Rhs[i], sc, &paths)
+					if strings.HasPrefix(rcFull, "#") || rcFull == "nil" || strings.HasPrefix(rcFull, "&") || lc == "_" {
+						continue
+					}
+					var cur []string
+					for a := range m {
+						cur = append(cur, a)
+					}
+					sort.Strings(cur)
+					for _, a := range cur {
+						if len(m) >= 15 {
+							break
+						}
+						if path, cst, ok := splitEqConst(a); ok && prefixOf(lc, path) {
+							f := e.eqAtom(rcFull+path[len(lc):], cst, paths)
+							if f.k == fAtom {
+								m[f.atom] = true
+							}
+						} else if strings.HasPrefix(a, "eq(") && strings.HasSuffix(a, ",nil)") {
+							if path := a[3 : len(a)-5]; prefixOf(lc, path) {
+								f := e.eqAtom(rcFull+path[len(lc):], "nil", paths)
+								if f.k == fAtom {
+									m[f.atom] = true
+								}
+							}
+						}
+					}
+				}
+				return true
+			})
+		}
 		// tracked boolean variables: the atoms of what they are assigned
 		for round := 0; round < 2; round++ {
 			ast.Inspect(body, func(n ast.Node) bool {
@@ -2133,6 +2177,36 @@ func (w *walker) assign(lhs ast.Expr, rhs ast.Expr, s vset) vset {
 	s = w.kill(s, p)
 	if rhs == nil {
 		return s
+	}
+	// copy x = y of a pure path: afterwards eq(x·σ, c) holds exactly when eq(y·σ, c) does
+	if isPurePath(rhs) {
+		rc := strings.TrimPrefix(w.e.canon(rhs, w.sc, nil), "&")
+		if !strings.HasPrefix(rc, "#") && rc != "nil" && !prefixOf(p, rc) && !strings.HasPrefix(w.e.canon(rhs, w.sc, nil), "&") {
+			for i, a := range w.u.atoms {
+				src := ""
+				if path, cst, ok := splitEqConst(a); ok && prefixOf(p, path) {
+					src = "eq(" + rc + path[len(p):] + "," + cst + ")"
+				} else if strings.HasPrefix(a, "eq(") && strings.HasSuffix(a, ",nil)") {
+					if path := a[3 : len(a)-5]; prefixOf(p, path) {
+						src = "eq(" + rc + path[len(p):] + ",nil)"
+					}
+				}
+				if src == "" {
+					continue
+				}
+				j, ok := w.u.idx[src]
+				if !ok {
+					continue
+				}
+				ns := newVset(len(w.u.atoms))
+				for v := 0; v < 1<<uint(len(w.u.atoms)); v++ {
+					if s.has(v) && (v>>uint(i))&1 == (v>>uint(j))&1 {
+						ns.set(v)
+					}
+				}
+				s = ns
+			}
+		}
 	}
 	// a fresh struct literal: every field not named in it holds its zero value
 	{
